@@ -16,6 +16,7 @@ RULE = (
     "Bounded liveness at quiescence: in DAGs every waiter whose producer ran has run (executed set = RefEval); in the "
     "signal loop the waiting gate and waiters ran once per production (counts and values = sequential do-while). "
     "Non-trivial: >= 1 wait check observed; distinct = canonical program shape / (template, parameters)."
+    " Also a lagging waiter: the producer re-emits in every iteration while the waiter's data input changes every second iteration (both list orders, limits 2-7)."
 )
 ASSUMPTIONS = [
     "production = the producer's function returning (call log exit); step membership from the get_ready_nodes tap",
